@@ -1,3 +1,4 @@
 import Proofs.Ring
 import Proofs.RingSpec
 import Proofs.PipeLemmas
+import Proofs.C01Spec
